@@ -33,6 +33,9 @@ class Deadline:
             d = min(ft, cm) if caller != "none" else ft
             dv = rng.choice([-1, -1, max(20, d - 120), d + 150])
             items.append({"ft_ms": ft, "caller": caller, "caller_ms": cm, "deliver_ms": dv, "join_ms": 0})
+        # configured fetch timeouts below a millisecond are timeouts, not "unset"
+        for us in ((500, 999) if tier == "quick" else (1, 100, 500, 999, 500, 999)):
+            items.append({"ft_ms": 1, "ft_us": us, "caller": rng.choice(["none", "deadline"]), "caller_ms": 700, "deliver_ms": -1, "join_ms": 0})
         # a second caller joining a lookup already in flight has its OWN deadline: delivered after the first caller's
         # deadline and before its own it gets the value; never delivered it returns at its own deadline, not earlier
         for _ in range(4 if tier == "quick" else 24):
